@@ -57,6 +57,44 @@ def want_features(fstype, ostr):
     return base
 
 
+# extra option families of the property text; (label, args, keeps the geometry model applicable?, needs journal?)
+EXTRAS = [
+    ("", [], 1, 0), ("", [], 1, 0), ("", [], 1, 0),
+    ("flex1", ["-G", "1"], 1, 0), ("flex2", ["-G", "2"], 1, 0), ("flex16", ["-G", "16"], 1, 0),
+    ("raid", ["-E", "stride=4,stripe_width=8"], 1, 0),
+    ("jsize", ["-J", "size=1"], 1, 1), ("jsize4", ["-J", "size=4"], 1, 1),
+    ("jloc", ["-J", "size=1,location=100"], 1, 1),
+    ("resize", ["-E", "resize=@3x"], 0, 0),
+    ("offset", ["-E", "offset=8192"], 1, 0),
+    ("tree", ["-d", "@tree"], 1, 0),
+    ("rootowner", ["-E", "root_owner=1000:100"], 1, 0),
+    ("m0", ["-m", "0", "-L", "lab"], 1, 0),
+    ("packed", ["-E", "packed_meta_blocks=1"], 1, 0),
+    ("lazy", ["-E", "lazy_itable_init=1,lazy_journal_init=1"], 1, 0),
+    ("nodiscard", ["-E", "nodiscard", "-e", "remount-ro"], 1, 0),
+    ("hugefiles", ["-T", "hugefiles"], 0, 0),
+]
+
+
+def small_tree(work):
+    d = os.path.join(work, "tree")
+    if os.path.exists(d):
+        return d
+    os.makedirs(os.path.join(d, "a/b"))
+    for i in range(12):
+        with open(os.path.join(d, "a", "f%02d" % i), "wb") as f:
+            f.write(bytes((i * 3 + j) & 255 for j in range(i * 700)))
+    os.symlink("a/f01", os.path.join(d, "lnk"))
+    os.link(os.path.join(d, "a/f02"), os.path.join(d, "a/b/hard"))
+    for dd, ds, fs in os.walk(d):
+        for n in fs + ds:
+            # atime in the future: relatime then never updates it when mke2fs -d reads the file, so that two runs see the same lstat()
+            try: os.utime(os.path.join(dd, n), (2000000000, 1500000000), follow_symlinks=False)
+            except Exception: pass
+    os.utime(d, (2000000000, 1500000000))
+    return d
+
+
 def universe(tier, rng):
     cfgs = []
     bss = [1024, 2048, 4096]
@@ -76,8 +114,13 @@ def universe(tier, rng):
                 sizes = sorted(s for s in sizes if 60 <= s <= maxblocks)
                 for blocks in sizes:
                     for (iratio, isz, nino) in [(0, 0, 0), (4096, 128, 0), (65536, 256, 0), (0, 256, 100), (1024, 256, 0)]:
-                        cfgs.append(dict(label=label, fstype=fstype, ostr=ostr, model=model, bs=bs, bpg=bpg, blocks=blocks,
-                                         iratio=iratio, isz=isz, ninodes=nino))
+                        ex = EXTRAS[rng.randrange(len(EXTRAS))]
+                        if ex[3] and fstype == "ext2":
+                            ex = EXTRAS[0]
+                        if ex[0] == "hugefiles":
+                            continue
+                        cfgs.append(dict(label=label, fstype=fstype, ostr=ostr, model=model & ex[2], bs=bs, bpg=bpg, blocks=blocks,
+                                         iratio=iratio, isz=isz, ninodes=nino, extra=ex[0], extra_args=list(ex[1])))
     rng.shuffle(cfgs)
     n = 320 if tier == "quick" else min(len(cfgs), 12000)
     # stratify quick selection over feature sets
@@ -100,7 +143,8 @@ def one(args):
     img = os.path.join(work, "m%d.img" % idx)
     mk = os.path.join(b, "misc", "mke2fs")
     fsck = os.path.join(b, "e2fsck", "e2fsck")
-    opts = ["-q", "-F", "-t", c["fstype"], "-b", str(c["bs"]), "-U", UUID, "-E", "hash_seed=" + HASH_SEED]
+    eopts = ["hash_seed=" + HASH_SEED]          # mke2fs keeps only the LAST -E: all extended options go into one list
+    opts = ["-q", "-F", "-t", c["fstype"], "-b", str(c["bs"]), "-U", UUID]
     if c["ostr"]:
         opts += ["-O", c["ostr"]]
     if c["bpg"]:
@@ -113,7 +157,24 @@ def one(args):
         opts += ["-N", str(c["ninodes"])]
     if "bigalloc" in c["ostr"]:
         opts += ["-C", str(c["bs"] * 4)]
-    size = c["blocks"] * c["bs"]
+    offset = 0
+    xa = list(c.get("extra_args", []))
+    i = 0
+    while i < len(xa):
+        a = xa[i]
+        if a == "-E":
+            v = xa[i + 1].replace("@3x", str(3 * c["blocks"]))
+            eopts.append(v)
+            if v.startswith("offset="):
+                offset = int(v.split("=")[1])
+            i += 2
+            continue
+        if a == "@tree":
+            a = os.path.join(work, "tree")
+        opts.append(a)
+        i += 1
+    opts += ["-E", ",".join(eopts)]
+    size = c["blocks"] * c["bs"] + offset
 
     def fresh():
         with open(img, "wb") as f:
@@ -129,7 +190,7 @@ def one(args):
                     "ss2": 1 if "sparse_super2" in feats else 0,
                     "metabg": 1 if "meta_bg" in feats else 0, "is64": 1 if "64bit" in feats else 0, "ninodes": c["ninodes"]},
             "obs": {"blocks": 0, "first": 0, "bpg": 0, "ipg": 0, "itb": 0, "rsv": 0, "inodes": 0, "gdc": 0, "metabg": 0, "backups": [], "features": []},
-            "cmd": " ".join(opts + [str(c["blocks"])])}
+            "cmd": " ".join(opts + [str(c["blocks"])]), "extra": c.get("extra", ""), "c": c}
     # -n first, on an existing zero image, under the recorder
     fresh()
     tr = img + ".nd"
@@ -153,14 +214,15 @@ def one(args):
         return line
     line["nwrites"] = nw if rc_n == 0 else 0     # -n may reject what the real run accepts only if it prints an error: then no claim
     data1 = open(img, "rb").read()
-    sb = sbparse.parse_sb(data1[1024:2048])
+    sb = sbparse.parse_sb(data1[offset + 1024:offset + 2048])
     if sb is None:
         line["obs"]["blocks"] = -1
     else:
         line["obs"] = {"blocks": sb["blocks"], "first": sb["first"], "bpg": sb["bpg"], "ipg": sb["ipg"], "itb": sb["itb"], "rsv": sb["rsv"],
                        "inodes": sb["inodes"], "gdc": sb["gdc"], "metabg": 1 if "meta_bg" in sb["features"] else 0,
-                       "backups": [0] + sbparse.backup_groups(img, sb), "features": sb["features"]}
-    r2, out, err = sh([fsck, "-fn", img], env=env, timeout=120)
+                       "backups": [0] + sbparse.backup_groups(img, sb, offset), "features": sb["features"]}
+    r2, out, err = sh([fsck, "-fn", img + ("?offset=%d" % offset if offset else "")], env=env, timeout=120)
+    line["offset"] = offset
     line["fsck"] = r2
     line["fsck_out"] = out.decode("utf8", "replace")[-300:] if r2 else ""
     # reproducibility
@@ -177,6 +239,7 @@ def run_universe(b, cfgs, work):
         r = sh(["make", "-C", os.path.join(VERIF, "harness"), "-s", "all"])
         if not os.path.exists(iotrace):
             die_broken("harness/iotrace.so missing (run MANIFEST.setup_cmd)")
+    small_tree(work)
     with cf.ThreadPoolExecutor(max_workers=NPROC) as ex:
         return list(ex.map(one, [(b, c, work, i, iotrace) for i, c in enumerate(cfgs)]))
 
@@ -190,7 +253,7 @@ def consistency_oracle(lines):
     idx = [i for i, l in enumerate(lines) if l["rc"] == 0 and "_img" in l]
     sts = []
     for i in idx:
-        sts.append(ext4read.project(lines[i]["_img"]))
+        sts.append(ext4read.project(lines[i]["_img"], lines[i].get("offset", 0)))
     res = absstate.evaluate(sts)
     for i, r in zip(idx, res):
         lines[i]["consistent"] = 1 if r["consistent"] else 0
@@ -275,13 +338,7 @@ def replay(path):
     work = fast_tmp()
     try:
         b = build.build()
-        c = dict(label="r", fstype=l["cmd"].split("-t ")[1].split()[0], ostr="", model=l["model"], bs=l["cfg"]["bs"], bpg=l["cfg"]["bpg"],
-                 blocks=l["cfg"]["blocks"], iratio=0, isz=0, ninodes=l["cfg"]["ninodes"])
-        toks = l["cmd"].split()
-        for i, t in enumerate(toks):
-            if t == "-O": c["ostr"] = toks[i + 1]
-            if t == "-i": c["iratio"] = int(toks[i + 1])
-            if t == "-I": c["isz"] = int(toks[i + 1])
+        c = l["c"]
         lines = run_universe(b, [c], work)
         try:
             consistency_oracle(lines)
